@@ -49,6 +49,11 @@ CLAIMS = {
         'ignored, no panic); add_flags_to_message header bytes and 16-bit gate; rebasing closures rewrite only the placeholder / self id and are wired to the right fields.',
    note='Trusted as C01. Outside: JSON body, CoreDocument::try_map/map_unchecked applying the closures (iterator code).',
    technique=TECH_M, ref='DESIGN.md section 2 C14'),
+ 'C17': dict(
+   text='M kernels: network-name character class == [a-z0-9] for every char and the 1..6 length gate; M audit: every constructor reaches try_from_core, which '
+        'lower-cases, validates method == iota / 32-byte prefixed-hex tag component / network component and removes exactly the default network; component accessors recompose the method id.',
+   note='Trusted as C01. Outside: to_lowercase / prefix_hex internals, the generic parser (C10), equality <=> (network, tag bytes) is argued from the normal form.',
+   technique=TECH_M, ref='DESIGN.md section 2 C17'),
  'C16': dict(
    text='Binding audit of validate_key_binding_jwt (171 blocks, 100+ paths: typ, holder key in scope, signature, sd_hash, nonce, aud, iat window, no reachable panic), '
         'SD-JWT verify_signature (signature before disclosures, decoded claims feed the credential, issuer == kid DID) and validate_credential (same units as plain JWTs).',
